@@ -145,6 +145,33 @@ func renderItems(items []gItem) []string {
 // builderTokens extracts the tokens written to builder value b inside fn
 // (not descending into unrelated literals). skip filters calls out (e.g. the
 // aad-only branch).
+// builderRoot: the builder a function writes its output with: the value of its
+// cryptobyte.NewBuilder call or, without one, its local Builder variable (the
+// zero Builder is an empty growable one, like NewBuilder(nil)).
+func builderRoot(p *core.Prog, fn *ssa.Function) ssa.Value {
+	for _, s := range callSites(p, []*ssa.Function{fn}, `cryptobyte\.NewBuilder`) {
+		if v, ok := s.Instr.(ssa.Value); ok {
+			return v
+		}
+	}
+	var found ssa.Value
+	for _, b := range fn.Blocks {
+		for _, in := range b.Instrs {
+			al, ok := in.(*ssa.Alloc)
+			if !ok {
+				continue
+			}
+			if nt, ok := al.Type().Underlying().(*types.Pointer).Elem().(*types.Named); ok && nt.Obj().Name() == "Builder" && nt.Obj().Pkg() != nil && strings.HasSuffix(nt.Obj().Pkg().Path(), "/cryptobyte") {
+				if found != nil {
+					return nil
+				}
+				found = al
+			}
+		}
+	}
+	return found
+}
+
 func builderTokens(p *core.Prog, fn *ssa.Function, b ssa.Value, skip func(c ssa.CallInstruction) bool, depth int) []string {
 	if depth > 8 {
 		return []string{"…"}
@@ -541,10 +568,7 @@ func clientHelloGrammar(p *core.Prog, r *core.Run, rule string) {
 		return
 	}
 	// builder: the NewBuilder value of marshal
-	var bld ssa.Value
-	for _, s := range callSites(p, []*ssa.Function{m.marshal}, `cryptobyte\.NewBuilder`) {
-		bld, _ = s.Instr.(ssa.Value)
-	}
+	bld := builderRoot(p, m.marshal)
 	aadP := m.marshal.Params[1]
 	skip := func(c ssa.CallInstruction) bool {
 		for _, f := range p.Facts(c.Block()) {
